@@ -53,7 +53,7 @@ static void mk_seq(seq_t *q,int s,int with_derived){
    /* splices without a redundancy frame, both directions across the CELT-only boundary: a mid-stream CELT-only packet of another stream,
       this stream's first packet, a mid-stream SILK-only packet of another stream, this stream's first packet (the transition cross-fade
       of opus_decode_frame conceals with the OLD mode first: the gain must not be applied to that audio twice) */
-   if(SPL[0]>=0&&SPL[1]>=0&&st->n>0){ int k2; for(k2=0;k2<2;k2++){ cpkt *p=&CO.p[SPL[k2]], *p0=&CO.p[st->first];
+   if(with_derived&&SPL[0]>=0&&SPL[1]>=0&&st->n>0){ int k2;   /* alphabet mode only: the all-gains sweep keeps its sequences short */ for(k2=0;k2<2;k2++){ cpkt *p=&CO.p[SPL[k2]], *p0=&CO.p[st->first];
       memset(&q->op[q->n],0,sizeof(op_t)); q->op[q->n].d=p->data; q->op[q->n].len=p->len; q->n++;
       memset(&q->op[q->n],0,sizeof(op_t)); q->op[q->n].d=p0->data; q->op[q->n].len=p0->len; q->n++; } }
    if(with_derived) for(i=0;i<CO.n&&q->n<MAXOP;i++) if(CO.p[i].stream==s&&CO.p[i].kind!=0){ q->op[q->n].d=CO.p[i].data; q->op[q->n].len=CO.p[i].len; q->op[q->n].plc=0; q->op[q->n].fec=0; q->op[q->n].reset=0; q->n++; }
